@@ -27,7 +27,9 @@ func main() {
 	// subscriptions: every event of the stream is completed like a query result of the field
 	vlib.ExecConformance(c, "C01s", bins, vs, rand.New(rand.NewSource(vlib.Seed()+1)), n/4,
 		vlib.ExecMode{Faults: true, DirFaults: true, Subs: true, PlansPer: 3,
-			Module: "GqlSubTrace", Config: "GqlSubTrace.cfg", Lines: vlib.SubTraceLines})
+			Module: "GqlSubTrace", Config: "GqlSubTrace.cfg", Lines: vlib.SubTraceLines,
+			// subscriptions over server-sent events: one `next` event per response
+			Transports: []string{"tp:sse"}, TransportEvery: 3})
 	fmt.Fprintln(os.Stderr, "done")
 	c.Finish()
 }
